@@ -460,8 +460,14 @@ func (f *frame) contractCall(callee *ssa.Function, fc *FuncContract, args []SV, 
 				nb[fmt.Sprintf("%s_%d", cs.As, i)] = f.resultHavoc(fmt.Sprintf("%s!ghost%d", base, i), cf.Signature.Results().At(i).Type())
 			}
 		} else if rt := e.E.libResultType(cs.Callee); rt != nil {
-			g := f.resultHavoc(base+"!ghost", rt)
-			nb[cs.As] = g
+			if tup, isTup := rt.(*types.Tuple); isTup {
+				for i := 0; i < tup.Len(); i++ {
+					nb[fmt.Sprintf("%s_%d", cs.As, i)] = f.resultHavoc(fmt.Sprintf("%s!ghost%d", base, i), tup.At(i).Type())
+				}
+			} else {
+				g := f.resultHavoc(base+"!ghost", rt)
+				nb[cs.As] = g
+			}
 		}
 	}
 	for _, en := range fc.Ensures {
